@@ -20,3 +20,18 @@ add("C15", "exploration",
     "through the real telnet transport on loopback TCP; an independent RFC 854 reference parser decides expected replies and data. Cases whose real-time "
     "negotiation window was closed by load are inconclusive, never held. Subnegotiation is outside the claim.",
     "DESIGN.md §3 C15", "real telnet transport vs loopback TCP server with PRNG openings/segmentations; RFC 854 reference parser as oracle; delivery established from TCP_INFO; three-valued verdicts")
+
+add("C05", "fault_enumeration",
+    "For every operation scenario (generic, network incl. implicit privilege change, in-channel login, NETCONF open and all 11 RPC methods) the device goes "
+    "silent after EVERY byte offset k of the exchange (measured by a fault-free dry run) under the connection-wide timeout and the per-operation override; "
+    "precedence is decided by outcome with a device that resumes; a monitor checks timeout-error class, return within timeout+1.5 s (load canary, retries, "
+    "else inconclusive), no partial success, no panic/hang, and - when the device model sits at a clean prompt - that the next exchange returns its own result "
+    "after the stall is released once no operation goroutine is observed running.",
+    "DESIGN.md §3 C05", "stall injection at every stream offset of real-library sessions over a causal transport model; outcome + goroutine-profile monitor")
+
+add("C17", "exploration",
+    "Exploration, exhaustive in the property's own finite dimensions: all 17 advertised names against the embedded files both ways, every level and every "
+    "ordered level pair of every definition, the shipped variant, the fixture definitions, all 256 section subsets of generated variants per platform and "
+    "the user options alone and together; transport segmentation, end of line and read size are sampled. The device is a model derived from each definition "
+    "plus a validated canonical prompt table: the claim is that definitions, loader, variant merge and driver are mutually consistent and drive such a device.",
+    "DESIGN.md §3 C17 + Appendix A", "invariant monitors over every loaded platform definition (independent yaml.v3 reading) + real network.Driver against a definition-derived CLI device model; device-side line logs vs reference interpreter")
